@@ -2256,7 +2256,7 @@ def _bpm_post(S):
                     idx1 = min(idx, min(lens) - 1) if (lens and idx >= 0) else idx
                 else:
                     idx1 = idx
-                S.attempt(M + 'report_mass_fluxes', ('stage%d' % stage) + hk, dict(scn, idx=idx1, stage=stage, chems=chems, fp_type=fpt),
+                S.attempt(M + 'report_mass_fluxes', hk[1:] if hetero else 'stage%d' % stage, dict(scn, idx=idx1, stage=stage, chems=chems, fp_type=fpt),
                           lambda: model.report_mass_fluxes(idx1, stage=stage, chems=chems, fp_type=fpt), edge=hetero)
         surfaced = model.q[-1, 9] <= 50.
         if surfaced or tracked:
@@ -2265,10 +2265,10 @@ def _bpm_post(S):
                 # tp: NaN for a particle that did not surface, tc: "Will equal np.nan if the near-field plume does not surface"
                 # (report_surfacing_fluxes docstring and l.1584-1635)
                 return NanOK((mp, mc), (tp, tc_), 'surfacing times of what did not surface')
-            S.attempt(M + 'report_surfacing_fluxes', ('surfaced' if surfaced else 'trapped') + hk, scn, surf, edge=hetero)
+            S.attempt(M + 'report_surfacing_fluxes', hk[1:] if hetero else ('surfaced' if surfaced else 'trapped'), scn, surf, edge=hetero)
         else:
             S.skip('tamoc.' + M + 'report_surfacing_fluxes', 'plume trapped and particles not tracked (the method asks for track=True)')
-        S.attempt(M + 'report_watercolumn_particle_fluxes', 'all-particles' + hk, scn,
+        S.attempt(M + 'report_watercolumn_particle_fluxes', hk[1:] if hetero else 'all-particles', scn,
                   lambda: model.report_watercolumn_particle_fluxes(chems=None, fp_type=-1), edge=hetero)
         loc = r.randrange(nt)
         S.attempt(M + 'report_psds', kind + ':stage0', dict(scn, loc=loc, stage=0), lambda: model.report_psds(loc, 0))
@@ -2288,15 +2288,15 @@ def _bpm_post(S):
             zc = max(float(model.q[-1, 9]), 0.1)
             x = np.array([[r.uniform(10., 5000.), r.uniform(-50., 50.), zc + r.uniform(-5., 5.)] for _ in range(4)])
             for mc in (True, False):
-                S.attempt(M + 'get_intrusion_concentration', '%s:max_C=%s' % (kind, mc), dict(scn, x=x, max_C=mc),
-                          lambda mc=mc: model.get_intrusion_concentration(x.copy(), max_C=mc))
+                S.attempt(M + 'get_intrusion_concentration', hk[1:] if hetero else 'max_C=%s' % mc, dict(scn, x=x, max_C=mc),
+                          lambda mc=mc: model.get_intrusion_concentration(x.copy(), max_C=mc), edge=hetero)
             if tracked and all(pt.farfield for pt in parts):
                 for mc in (True, False):
-                    S.attempt(M + 'get_grid_concentrations', '%s:max_C=%s' % (kind, mc), dict(scn, x=x, max_C=mc),
-                              lambda mc=mc: model.get_grid_concentrations(x.copy(), max_C=mc))
+                    S.attempt(M + 'get_grid_concentrations', hk[1:] if hetero else 'max_C=%s' % mc, dict(scn, x=x, max_C=mc),
+                              lambda mc=mc: model.get_grid_concentrations(x.copy(), max_C=mc), edge=hetero)
                 yv, zv = np.linspace(-20., 20., 3), np.linspace(max(zc - 100., 1.), zc, 3)
-                S.attempt(M + 'get_planar_concentrations', kind + ':yz-plane', dict(scn, x=500., y=yv, z=zv),
-                          lambda: model.get_planar_concentrations(500., yv.copy(), zv.copy()))
+                S.attempt(M + 'get_planar_concentrations', hk[1:] if hetero else 'yz-plane', dict(scn, x=500., y=yv, z=zv),
+                          lambda: model.get_planar_concentrations(500., yv.copy(), zv.copy()), edge=hetero)
                 pt = r.choice(parts)
                 zp = r.uniform(pt.z_min, pt.z_max)
                 xp = np.array([r.uniform(10., 3000.), r.uniform(-20., 20.), zp])
@@ -2316,7 +2316,11 @@ def _bpm_post(S):
         pth = _save_particles_direct(S, parts, 'bpm.Particle:after-simulation', scn)
         if pth is not FAILED and os.path.exists(pth):
             os.remove(pth)
-        if S.attempt(M + 'save_sim', kind, scn, lambda: model.save_sim(f_nc, 'profile.nc', 'C20 synthetic profile')) is not FAILED:
+        # save_sim stores the tracer concentrations in one scalar slot: a release with no or with several passive tracers
+        # (both simulate fine) gets its own input kind / key
+        ntr = len(model.tracers)
+        if S.attempt(M + 'save_sim', kind if ntr == 1 else '%d-tracers' % ntr, scn,
+                     lambda: model.save_sim(f_nc, 'profile.nc', 'C20 synthetic profile'), edge=(ntr != 1)) is not FAILED:
             m2 = bpm.Model(prf)
 
             def load(m=m2):
@@ -2395,6 +2399,371 @@ def _bpm_functions(S):
         for chems in (None, ['ethane', 'benzene'], [0, 2]):
             S.attempt('bent_plume_model.chem_idx_list', type(chems).__name__ + ('' if not chems else ':' + type(chems[0]).__name__),
                       dict(chems=chems, composition=comp), lambda chems=chems: bpm.chem_idx_list(chems, list(comp)))
+
+
+# =====================================================================================================
+# stratified_plume_model
+# =====================================================================================================
+
+def _spm_spec(S, k, cap=None):
+    """seeded stratified-plume scenario (harness/scen_spm.py, the generator of C06): soluble and inert particles"""
+    import scen_spm
+    r = S.r
+    n_sol, n_inert = ((1, 1), (1, 0), (0, 1), (2, 1), (2, 0))[k % 5]
+    spec = scen_spm.random_spec(r, n_sol, n_inert, background=r.random() < 0.5)
+    # the run time grows with the height of rise: release depth capped (quick 250 m, thorough 600 m)
+    spec['z0'] = min(spec['z0'], S.ctx.n(250., 600.) * (cap if cap else 1.))
+    spec['maxit'] = 2
+    spec['delta_z'] = r.choice([2., 4., 8.])
+    spec['toler'] = 0.2
+    return spec
+
+
+def _spm_kind(spec):
+    return '+'.join(sorted(set('soluble' if s['soluble'] else 'inert' for s in spec['particles'])))
+
+
+@builder('spm_sims', 'stratified_plume_model.Model.simulate')
+def _build_spm(S):
+    import scen_spm
+    from tamoc import stratified_plume_model as spm
+    sims = []
+    for k in range(S.reps(S.ctx.n(1, S.nsim))):
+        spec = _spm_spec(S, k)
+        sc = scen_spm.build(spec)
+        try:
+            prf, d = _scratch_profile_obj(S, sc.profile)
+        except CallFailed:
+            continue
+        model = S.attempt('stratified_plume_model.Model', 'profile', spec['profile'], lambda: spm.Model(prf))
+        if model is FAILED:
+            continue
+        kind = _spm_kind(spec)
+
+        def sim():
+            model.simulate(sc.particles, sc.z0, sc.R, maxit=spec['maxit'], toler=spec['toler'], delta_z=spec['delta_z'], plots=False)
+            return model.zi, model.yi, model.zo, model.yo
+        if S.attempt('stratified_plume_model.Model.simulate', kind, spec, sim) is FAILED:
+            continue
+        sims.append({'model': model, 'spec': spec, 'sc': sc, 'prf': prf, 'dir': d, 'kind': kind})
+    if not sims:
+        raise Blocked('no stratified-plume simulation completed')
+    return sims
+
+
+TABLE['tamoc.stratified_plume_model.Model.simulate'] = lambda S: S.get('spm_sims')
+
+
+def _inner_numbers(yi):
+    return [yi.z, yi.Q, yi.J, yi.S, yi.H, yi.T, yi.u, yi.b, yi.rho, yi.rho_a, yi.c, yi.xi, yi.fb, yi.Fb, yi.Ep]
+
+
+def _outer_numbers(yo):
+    return [yo.z, yo.Q, yo.J, yo.S, yo.H, yo.T, yo.u, yo.b, yo.rho, yo.rho_a, yo.c]
+
+
+@entry('stratified_plume_model.Model', 'stratified_plume_model.Model.get_derived_variables', 'stratified_plume_model.Model.report_psds',
+       'stratified_plume_model.Model.report_intrusion_fluxes', 'stratified_plume_model.Model.save_sim',
+       'stratified_plume_model.Model.save_txt', 'stratified_plume_model.Model.save_derived_variables',
+       'stratified_plume_model.Model.load_sim', 'stratified_plume_model.InnerPlume.update', 'stratified_plume_model.OuterPlume.update')
+def _spm_post(S):
+    from tamoc import stratified_plume_model as spm
+    r = S.r
+    M = 'stratified_plume_model.Model.'
+    for sim in S.get('spm_sims'):
+        model, spec, kind, d, prf = sim['model'], sim['spec'], sim['kind'], sim['dir'], sim['prf']
+        ni, no = len(model.zi), len(model.zo)
+        for idx in sorted(set([0, ni // 2, ni - 1])):
+            S.attempt('stratified_plume_model.InnerPlume.update', kind, dict(spec, index=idx),
+                      lambda idx=idx: (model.yi_local.update(model.zi[idx], model.yi[idx, :], model.particles, prf, model.p),
+                                       _obj_numbers(model.yi_local))[1])
+        for idx in sorted(set([0, no // 2, no - 1])):
+            S.attempt('stratified_plume_model.OuterPlume.update', kind, dict(spec, index=idx),
+                      lambda idx=idx: (model.yo_local.update(model.zo[idx], model.yo[idx, :], prf, model.p, model.yi_local.b),
+                                       _obj_numbers(model.yo_local))[1])
+        tc = r.choice([None, list(model.chem_names)[:1] or None])
+        S.attempt(M + 'get_derived_variables', kind, dict(spec, track_chems=tc), lambda: model.get_derived_variables(track_chems=tc))
+        for idx in (0, -1, r.randrange(ni)):
+            S.attempt(M + 'report_psds', kind, dict(spec, idx=idx), lambda idx=idx: model.report_psds(idx))
+        S.attempt(M + 'report_intrusion_fluxes', kind, spec, lambda: model.report_intrusion_fluxes())
+        f_nc, f_txt, f_der = os.path.join(d, 'spm.nc'), os.path.join(d, 'spm_state'), os.path.join(d, 'spm_derived')
+        S.attempt(M + 'save_txt', kind, spec, lambda: (model.save_txt(f_txt, 'profile.nc', 'C20 synthetic profile'),
+                                                       [np.loadtxt(f) for f in sorted(glob.glob(f_txt + '*.txt')) if 'header' not in f])[1])
+        S.attempt(M + 'save_derived_variables', kind, dict(spec, track_chems=tc), lambda: model.save_derived_variables(f_der, track_chems=tc))
+        if S.attempt(M + 'save_sim', kind, spec, lambda: model.save_sim(f_nc, 'profile.nc', 'C20 synthetic profile')) is FAILED:
+            continue
+        m2 = spm.Model(prf)
+
+        def load(m=m2):
+            m.load_sim(f_nc)
+            return m.zi, m.yi, m.zo, m.yo, [_particle_numbers(q) for q in m.particles]
+        if S.attempt(M + 'load_sim', kind, spec, load) is not FAILED:
+            S.attempt(M + 'get_derived_variables', kind + ':loaded', spec, lambda: m2.get_derived_variables())
+        S.attempt('stratified_plume_model.Model', 'simfile', spec, lambda: (lambda m: (m.zi, m.yi, m.zo, m.yo))(spm.Model(simfile=f_nc)))
+        _load_particles_direct(S, f_nc, 'PlumeParticle:model-file', spec)
+
+
+def _obj_numbers(o):
+    """every numeric attribute of a plume object"""
+    return {k: v for k, v in vars(o).items() if isinstance(v, (int, float, np.floating, np.ndarray)) and not isinstance(v, bool)}
+
+
+@entry('stratified_plume_model.ModelParams', 'stratified_plume_model.InnerPlume', 'stratified_plume_model.OuterPlume',
+       'stratified_plume_model.inner_main', 'stratified_plume_model.outer_main', 'stratified_plume_model.err_check',
+       'stratified_plume_model.particle_from_Q', 'stratified_plume_model.particle_from_mb0')
+def _spm_functions(S):
+    import scen_spm
+    from scipy.interpolate import interp1d
+    from tamoc import stratified_plume_model as spm, smp
+    r = S.r
+    kinds = ['gas', 'liquid', 'inert']
+    for i in range(S.reps()):
+        # ---- particle factories
+        prf, z0, obj, sp, yk = _particle_case(S, kinds=(kinds[i % 3],), current='none')
+        de, lam = lu(r, 5e-4, 1e-2), r.uniform(0.7, 1.)
+        T0 = r.choice([None, float(prf.get_values(z0, ['temperature'])[0]) + r.uniform(0., 20.)])
+        w = dict(K=r.choice([1., 0.5]), K_T=r.choice([1., 0.]), fdis=10 ** r.uniform(-8, -3), t_hyd=r.choice([0., 100.]))
+        Q_N, mb0 = lu(r, 1e-4, 0.5), lu(r, 1e-2, 5.)
+        d = dict(sp, profile=prf._c20_descr, z0=z0, de=de, lambda_1=lam, T0=T0, **w)
+        S.attempt('stratified_plume_model.particle_from_Q', sp['kind'], dict(d, Q_N=Q_N),
+                  lambda: _particle_numbers(spm.particle_from_Q(prf, z0, obj, yk.copy(), Q_N, de, lam, T0, **w)))
+        S.attempt('stratified_plume_model.particle_from_mb0', sp['kind'], dict(d, mb0=mb0),
+                  lambda: _particle_numbers(spm.particle_from_mb0(prf, z0, obj, yk.copy(), mb0, de, lam, T0, **w)))
+    for i in range(S.reps(max(1, S.n // 6))):
+        # ---- model pieces, called the way Model.simulate calls them
+        spec = _spm_spec(S, i, cap=0.6)
+        sc = scen_spm.build(spec)
+        kind = _spm_kind(spec)
+        prf = sc.profile
+        p = S.attempt('stratified_plume_model.ModelParams', 'profile', spec['profile'], lambda: spm.ModelParams(prf), need=True)
+        S.attempt('stratified_plume_model.ModelParams', 'profile:attributes', spec['profile'], lambda: _obj_numbers(p))
+        with quiet():
+            z0, y0, chem_names = smp.main_ic(prf, sc.particles, p, sc.z0, sc.R)
+        yi = S.attempt('stratified_plume_model.InnerPlume', kind, spec, lambda: spm.InnerPlume(z0, y0, prf, sc.particles, p, chem_names), need=True)
+        S.attempt('stratified_plume_model.InnerPlume', kind + ':attributes', spec, lambda: _obj_numbers(yi))
+        yo = S.attempt('stratified_plume_model.OuterPlume', kind, spec,
+                       lambda: spm.OuterPlume(z0, np.zeros(4 + yi.nchems), prf, p, chem_names, yi.b), need=True)
+        S.attempt('stratified_plume_model.OuterPlume', kind + ':attributes', spec, lambda: _obj_numbers(yo))
+        neighbor = interp1d(np.array([0, prf.z_max]), np.zeros((2, 4 + yo.nchems)).transpose())
+        dz = spec['delta_z']
+        sols = []
+        for it in range(2):
+            res = S.attempt('stratified_plume_model.inner_main', '%s:iteration%d' % (kind, it + 1), spec,
+                            lambda: (lambda z, y, nb: ((z, y, nb), (z, y)))(*spm.inner_main(yi, yo, sc.particles, prf, p, neighbor, dz)))
+            if res is FAILED:
+                break
+            (zi, yis, neighbor) = res[0]
+            res = S.attempt('stratified_plume_model.outer_main', '%s:iteration%d' % (kind, it + 1), spec,
+                            lambda: (lambda z, y, nb: ((z, y, nb), (z, y)))(*spm.outer_main(yi, yo, sc.particles, prf, p, neighbor, dz)))
+            if res is FAILED:
+                break
+            (zo, yos, neighbor) = res[0]
+            sols.append((zi, yis, zo, yos))
+            for pt, k0 in zip(sc.particles, sc.K_T0):
+                pt.K_T = k0
+        if len(sols) == 2:
+            (zi0, yi0, zo0, yo0), (zi1, yi1, zo1, yo1) = sols
+            S.attempt('stratified_plume_model.err_check', kind, spec,
+                      lambda: spm.err_check(zi1, yi1, zo1, yo1, zi0, yi0, zo0, yo0, yi, yo, sc.particles, prf, p))
+
+
+# =====================================================================================================
+# blowout
+# =====================================================================================================
+
+def _blowout_substance(r, light=True):
+    heavy = r.sample(['n-hexane', 'n-heptane', 'benzene', 'toluene', 'ethylbenzene', 'n-decane'], r.randint(2, 4))
+    if 'n-decane' not in heavy:
+        heavy[-1] = 'n-decane'
+    lightc = (['methane'] + r.sample(['ethane', 'propane'], r.randint(0, 2))) if light else []
+    comp = lightc + heavy
+    w = np.concatenate([dirichlet(r, len(lightc)) * r.uniform(0.1, 0.4), dirichlet(r, len(heavy))]) if light else dirichlet(r, len(heavy))
+    return {'composition': comp, 'masses': w}
+
+
+def _blowout_numbers(b):
+    out = [b.T0, b.S0, b.P0, b.mass_flux, b.d_gas, b.vf_gas, b.d_liq, b.vf_liq, b.dt_max, b.sd_max]
+    out += [[pt.m0, pt.nb0, pt.us, pt.rho_p] for pt in b.disp_phases]
+    return out
+
+
+def _water_txt(S, ps):
+    """text file of depth (m), temperature (deg C), salinity (psu), u, v (m/s) — the format blowout documents"""
+    z, T, Sa = profile_columns(ps)
+    path = S.tmp('ctd') + '.txt'
+    with open(path, 'w') as f:
+        f.write('# depth temperature salinity ua va\n')
+        for i in range(len(z)):
+            f.write('%.6f %.6f %.6f %.4f %.4f\n' % (z[i], T[i] - 273.15, Sa[i], 0.1, 0.02))
+    return path
+
+
+@builder('blowouts', 'blowout.Blowout')
+def _build_blowouts(S):
+    from tamoc import blowout
+    r = S.r
+    out = []
+    for k in range(S.reps(max(1, S.nsim // 2))):
+        H = r.choice([1000., 1500., 2500.])
+        ps = profile_spec(r, H=H, current='none')
+        wk = ('world', 'profile', 'dict', 'ncfile', 'txt')[k % 5]
+        cur = [np.array([0.1, 0., 0.]), 0.08, np.array([0.05, 0.05]), np.array([[0., 0.1, 0., 0.], [5000., 0.05, 0.02, 0.]])][k % 4]
+        if wk == 'world':
+            water = None
+        elif wk == 'dict':
+            water = {'temperature': r.uniform(280., 300.), 'salinity': r.uniform(33., 36.)}
+        elif wk == 'profile':
+            water = build_profile(dict(ps, current=[[0., 0.1, 0., 0.], [H, 0.05, 0., 0.]]))
+        elif wk == 'ncfile':
+            prf, d = _scratch_profile(S, dict(ps, current=[[0., 0.1, 0., 0.], [H, 0.05, 0., 0.]]))
+            water = os.path.join(d, 'profile.nc')
+        else:
+            water = _water_txt(S, ps)
+        zmax = 3000. if wk in ('world', 'dict') else H
+        gor = r.choice([0., lu(r, 100., 2000.)])
+        args = dict(z0=r.uniform(0.3, 0.9) * zmax, d0=lu(r, 0.05, 0.5), substance=_blowout_substance(r, light=(gor == 0.)),
+                    q_oil=lu(r, 2000., 50000.), gor=gor, x0=0., y0=0., u0=r.choice([None, 0., r.uniform(0.1, 2.)]),
+                    phi_0=r.choice([-math.pi / 2, -r.uniform(0.2, 1.5)]), theta_0=r.choice([0., r.uniform(0., 2 * math.pi)]),
+                    num_gas_elements=r.randint(1, 4), num_oil_elements=r.randint(1, 4), water=water, current=cur,
+                    ca=r.choice(['all', []]))
+        d = dict(args, water=wk if wk != 'dict' else water, profile=ps)
+        b = S.attempt('blowout.Blowout', 'water-%s:gor%s' % (wk, '>0' if gor else '=0'), d, lambda: blowout.Blowout(**args))
+        if b is FAILED:
+            continue
+        S.attempt('blowout.Blowout', 'attributes', d, lambda: _blowout_numbers(b))
+        out.append({'b': b, 'args': args, 'descr': d, 'ps': ps, 'zmax': zmax})
+    if not out:
+        raise Blocked('no Blowout object could be built')
+    return out
+
+
+BLOWOUT_UPDATES = ['update_release_depth', 'update_orifice_diameter', 'update_substance', 'update_q_oil', 'update_gor',
+                   'update_produced_water', 'update_vertical_orientation', 'update_horizontal_orientation', 'update_num_gas_elements',
+                   'update_water_data', 'update_current_data', 'update_track_particles']
+
+
+@entry('blowout.Blowout', 'blowout.Blowout.simulate', 'blowout.Blowout.save_sim', 'blowout.Blowout.save_txt',
+       *['blowout.Blowout.' + u for u in BLOWOUT_UPDATES])
+def _blowout_obj(S):
+    from tamoc import blowout
+    r = S.r
+    B = 'blowout.Blowout.'
+    for item in S.get('blowouts'):
+        b, d, zmax = item['b'], item['descr'], item['zmax']
+
+        def settle():
+            """bring the object up to date the way simulate() does before it starts the model"""
+            b._update()
+            return _blowout_numbers(b)
+        vals = {
+            'update_release_depth': r.uniform(0.3, 0.9) * zmax, 'update_orifice_diameter': lu(r, 0.05, 0.5),
+            'update_substance': _blowout_substance(r, light=True), 'update_q_oil': lu(r, 2000., 50000.),
+            'update_gor': r.choice([0., lu(r, 100., 2000.)]) if 'methane' not in b.substance['composition'] else 0.,
+            'update_produced_water': r.choice([None, 0., r.uniform(0.1, 2.)]), 'update_vertical_orientation': -r.uniform(0.1, math.pi / 2),
+            'update_horizontal_orientation': r.uniform(0., 2 * math.pi), 'update_num_gas_elements': r.randint(1, 4),
+            'update_water_data': r.choice([None, {'temperature': r.uniform(280., 300.), 'salinity': r.uniform(33., 36.)}]),
+            'update_current_data': r.choice([0.05, np.array([0.1, 0.02]), np.array([0.1, 0.02, 0.]), np.array([[0., 0.1, 0., 0.], [5000., 0.05, 0.02, 0.]])]),
+            'update_track_particles': r.choice([True, False]),
+        }
+        order = list(BLOWOUT_UPDATES)
+        r.shuffle(order)
+        for u in order:
+            v = vals[u]
+            if u == 'update_water_data':
+                zmax = 3000.
+                b.update_release_depth(min(b.z0, 0.9 * zmax))
+            S.attempt(B + u, type(v).__name__ if not isinstance(v, np.ndarray) else 'ndarray%dD' % v.ndim, dict(d, value=v),
+                      lambda u=u, v=v: (getattr(b, u)(v), settle())[1])
+        # ---- one short simulation of the updated object (sd_max is an attribute the class computes in _update)
+        b.update_track_particles(item is S.get('blowouts')[0])
+        try:
+            with quiet():
+                b._update()
+        except Exception:      # noqa: BLE001  (already reported by the update that caused it)
+            continue
+        b.sd_max = r.uniform(30., 80.)
+        b.dt_max = 600.
+
+        def sim():
+            b.simulate()
+            return _bpm_positions_ok(b.bpm)
+        if S.attempt(B + 'simulate', 'track=%s' % b.track, dict(d, sd_max=b.sd_max), sim) is FAILED:
+            continue
+        dd = S.tmp('blow')
+        os.makedirs(dd)
+        write_profile_nc(S, b.profile, os.path.join(dd, 'profile.nc'))
+        S.attempt(B + 'save_sim', 'track=%s' % b.track, d, lambda: b.save_sim(os.path.join(dd, 'blowout.nc'), 'profile.nc', 'C20 profile'))
+        S.attempt(B + 'save_txt', 'track=%s' % b.track, d,
+                  lambda: (b.save_txt(os.path.join(dd, 'blowout_state'), 'profile.nc', 'C20 profile'), _txt_ok(os.path.join(dd, 'blowout_state.txt')))[1])
+    # ---- documented current form with its own key: profile of (depth, u, v) without the optional vertical component
+    cur = np.array([[0., 0.1, 0.02], [5000., 0.05, 0.]])
+    S.attempt('blowout.Blowout', 'current-2D-depth-u-v', {'current': cur}, lambda: _blowout_numbers(blowout.Blowout(z0=500., current=cur.copy(), num_gas_elements=2, num_oil_elements=2)), edge=True)
+
+
+@entry('blowout.particles', 'blowout.get_ambient_profile', 'blowout.get_ctd_from_txt', 'blowout.create_ambient_profile')
+def _blowout_functions(S):
+    from netCDF4 import Dataset, date2num
+    from datetime import datetime
+    from tamoc import blowout, dbm
+    r = S.r
+    p_time = date2num(datetime(2010, 5, 30), units='seconds since 1970-01-01 00:00:00 0:00', calendar='julian')
+    for i in range(S.reps()):
+        H = r.choice([800., 1500.])
+        ps = profile_spec(r, H=H, current='none')
+        prf = build_profile(ps)
+        # ---- particles
+        sp = fluid_spec(r, ('gas', 'liquid')[i % 2])
+        oil = build_dbm(sp)
+        nb = r.randint(1, 6)
+        dsz = np.sort(np.array([lu(r, 2e-4, 1e-2) for _ in range(nb)]))
+        vf = dirichlet(r, nb)
+        z0 = r.uniform(0.3, 0.95) * H
+        Tj = float(prf.get_values(z0, ['temperature'])[0]) + r.choice([0., r.uniform(0., 40.)])
+        m_tot = lu(r, 0.05, 50.)
+        d = dict(sp, profile=ps, m_tot=m_tot, d=dsz, vf=vf, z0=z0, Tj=Tj)
+        S.attempt('blowout.particles', sp['kind'], d,
+                  lambda: [_particle_numbers(q) for q in blowout.particles(m_tot, dsz.copy(), vf.copy(), prf, oil, yk_of(sp), 0., 0., z0, Tj,
+                                                                           r.uniform(0.8, 1.), r.random() < 0.5, t_hyd=r.choice([0, 100.]))])
+        # ---- get_ambient_profile: every documented form of `water` and `current`
+        cur = [0.1, np.array([0.1, 0.05]), np.array([0.1, 0.05, 0.01]), np.array([[0., 0.1, 0.05, 0.], [5000., 0.2, 0., 0.]])][i % 4]
+        ck = 'float' if isinstance(cur, float) else 'ndarray%s' % 'x'.join(map(str, cur.shape))
+        for wk in ('None', 'dict', 'Profile', 'ncfile', 'ncdataset', 'txt'):
+            close = None
+            if wk == 'None':
+                water = None
+            elif wk == 'dict':
+                water = {'temperature': r.uniform(280., 300.), 'salinity': r.uniform(33., 36.)}
+            elif wk == 'Profile':
+                water = prf
+            elif wk in ('ncfile', 'ncdataset'):
+                pth = S.tmp('amb') + '.nc'
+                write_profile_nc(S, build_profile(dict(ps, current=[[0., 0.1, 0., 0.], [H, 0.05, 0., 0.]])), pth)
+                water = pth if wk == 'ncfile' else Dataset(pth)
+                close = None if wk == 'ncfile' else water
+            else:
+                water = _water_txt(S, ps)
+            S.attempt('blowout.get_ambient_profile', 'water-%s:current-%s' % (wk, ck), dict(profile=ps, water=wk, current=cur),
+                      lambda: _profile_numbers(blowout.get_ambient_profile(water, cur.copy() if isinstance(cur, np.ndarray) else cur,
+                                                                           ca=['oxygen'] if wk == 'txt' else [])))
+            if close is not None:
+                try:
+                    close.close()
+                except Exception:      # noqa: BLE001
+                    pass
+        # ---- get_ctd_from_txt / create_ambient_profile
+        ca = r.choice([[], ['nitrogen', 'oxygen', 'argon', 'carbon_dioxide']])
+        path = _water_txt(S, ps)
+        S.attempt('blowout.get_ctd_from_txt', 'ca%d' % len(ca), dict(profile=ps, ca=ca),
+                  lambda: _profile_numbers(blowout.get_ctd_from_txt(path, 'C20', 'harness/c20.py', 'No Sea Name', 28.5, -89.3, p_time, list(ca))))
+        z, T, Sa = profile_columns(ps)
+        data = np.column_stack([z, T - 273.15, Sa, 0.1 + 0. * z, 0.02 * np.cos(z / H)])
+        S.attempt('blowout.create_ambient_profile', 'ca%d' % len(ca), dict(profile=ps, ca=ca),
+                  lambda: _profile_numbers(blowout.create_ambient_profile(data.copy(), ['z', 'temperature', 'salinity', 'ua', 'va'],
+                                                                          ['m', 'deg C', 'psu', 'm/s', 'm/s'], ['modeled'] * 5, S.tmp('cap') + '.nc',
+                                                                          'C20', 'harness/c20.py', 'No Sea Name', 28.5, -89.3, p_time, list(ca))))
+    cur = np.array([[0., 0.1, 0.02], [5000., 0.05, 0.]])
+    S.attempt('blowout.get_ambient_profile', 'current-2D-depth-u-v', {'water': None, 'current': cur},
+              lambda: _profile_numbers(blowout.get_ambient_profile(None, cur.copy())), edge=True)
 
 
 # =====================================================================================================
